@@ -504,3 +504,85 @@ Proof.
   split; [reflexivity|]. split; [reflexivity|]. split; [eexists; reflexivity|]. eexists. split; reflexivity.
 Qed.
 Print Assumptions C15_decoder_accepts_more_refuted.
+
+(* ================================================================== the documented extensions *)
+(* "Value increment" (iwjson.h): an integer member or array element incremented by an integer, the sum being an int64 - success
+   and the pointer then reads exactly a + b.  (All inputs, doubles included, are covered by C15_patch_any_op_exact / lib_op:
+   ext_increment; this is the read-back form.)  Hypothesis `the sum is an int64`: without it the statement is FALSE of the model
+   and of the library - C15_increment_wraps_refuted. *)
+Theorem C15_increment_int_exact_partial : forall fo t o v a b,
+  klidx_inv t -> p_op o = OIncrement -> is_root (p_path o) = false -> p_val o = Some v -> good v -> val v = JI64 b ->
+  jget lenient (val t) (p_path o) = Some (JI64 a) -> - 9223372036854775808 <= a + b < 9223372036854775808 ->
+  fst (apply_op fo t o) = RcOk /\ klidx_inv (snd (apply_op fo t o)) /\
+  jget lenient (val (snd (apply_op fo t o))) (p_path o) = Some (JI64 (a + b)).
+Proof. exact increment_int_exact. Qed.
+Print Assumptions C15_increment_int_exact_partial.
+
+(* {"arr":[5,6]} with increment /arr/1 by 2 is {"arr":[5,8]} *)
+Example C15_ex_increment_array :
+  let t := of_val 0 [] (JObj [([97;114;114], JArr [JI64 5; JI64 6])]) in
+  let o := {| p_op := OIncrement; p_path := [[97;114;114]; [49]]; p_from := None; p_val := Some (ex_vnode (JI64 2)) |} in
+  klidx_inv t /\ good (ex_vnode (JI64 2)) /\ jget lenient (val t) (p_path o) = Some (JI64 6) /\
+  doc_val (snd (apply_op ex_fo t o)) = Some (JObj [([97;114;114], JArr [JI64 5; JI64 8])]).
+Proof. cbv zeta. split; [apply of_val_inv1 | split; [apply of_val_good | split; reflexivity]]. Qed.
+
+(* INT64_MAX incremented by 1: rc 0 and INT64_MIN (two's complement wrap-around of `target->vi64 += value->vi64`, a signed overflow
+   in C: the UBSan build of the library aborts on {"n":9223372036854775807} + increment /n 1; fixes/jpatch-increment-overflow.diff) *)
+Theorem C15_increment_wraps_refuted : exists fo t o v a b,
+  klidx_inv t /\ p_op o = OIncrement /\ is_root (p_path o) = false /\ p_val o = Some v /\ good v /\ val v = JI64 b /\
+  jget lenient (val t) (p_path o) = Some (JI64 a) /\ a + b = 9223372036854775808 /\
+  fst (apply_op fo t o) = RcOk /\ jget lenient (val (snd (apply_op fo t o))) (p_path o) = Some (JI64 (- 9223372036854775808)).
+Proof.
+  exists ex_fo, (of_val 0 [] (JObj [([110], JI64 9223372036854775807)])),
+         {| p_op := OIncrement; p_path := [[110]]; p_from := None; p_val := Some (ex_vnode (JI64 1)) |},
+         (ex_vnode (JI64 1)), 9223372036854775807, 1.
+  split; [apply of_val_inv1|]. split; [reflexivity|]. split; [reflexivity|]. split; [reflexivity|].
+  split; [apply of_val_good|]. repeat split; reflexivity.
+Qed.
+Print Assumptions C15_increment_wraps_refuted.
+
+(* "Swap values of two nodes" when one location contains the other: no exchange exists; the library answers 0 and the OUTER location
+   takes the inner value, the rest of the outer value is gone: {"a":{"b":{"x":1},"k":2}} with swap /a <-> /a/b is {"a":{"x":1}}
+   (replayed on the library; the node holding the old outer value - it lists itself among its children - is unreachable, the result
+   is a tree).  Covered exactly by lib_swap / C15_patch_any_op_exact; recorded as a leniency, see notes/jpatch.md. *)
+Theorem C15_swap_nested_refuted : exists fo t o f,
+  klidx_inv t /\ p_op o = OSwap /\ p_from o = Some f /\
+  jget strict (val t) f <> None /\ jget strict (val t) (p_path o) <> None /\ seg_prefix f (p_path o) = true /\
+  fst (apply_op fo t o) = RcOk /\
+  doc_val t = Some (JObj [([97], JObj [([98], JObj [([120], JI64 1)]); ([107], JI64 2)])]) /\
+  doc_val (snd (apply_op fo t o)) = Some (JObj [([97], JObj [([120], JI64 1)])]).
+Proof.
+  exists ex_fo, (of_val 0 [] (JObj [([97], JObj [([98], JObj [([120], JI64 1)]); ([107], JI64 2)])])),
+         {| p_op := OSwap; p_path := [[97]; [98]]; p_from := Some [[97]]; p_val := None |}, [[97]].
+  split; [apply of_val_inv1|]. split; [reflexivity|]. split; [reflexivity|].
+  split; [discriminate|]. split; [discriminate|]. repeat split; reflexivity.
+Qed.
+Print Assumptions C15_swap_nested_refuted.
+
+(* rfc6901 4 / rfc6902 5: a reference token that is no array index ("foo", "01", "1x", "+1"), "-" for an existing element, an index
+   beyond int (4294967296) make the operation an error.  The library reads tokens with iwatoi and "-" as the last element: each of
+   these succeeds (replayed on the library; fixes/jpatch-array-index-strict.diff) - FALSE: "the RFC makes it an error => error". *)
+Theorem C15_array_index_leniency_refuted :
+  let t := of_val 0 [] (JObj [([97;114;114], JArr [JI64 1; JI64 2; JI64 3])]) in
+  let t2 := of_val 0 [] (JArr [JI64 1; JI64 2]) in
+  let arr l := Some (JObj [([97;114;114], JArr l)]) in
+  let op k seg v := {| p_op := k; p_path := [[97;114;114]; seg]; p_from := None; p_val := v |} in
+  let nine := Some (ex_vnode (JI64 9)) in
+  klidx_inv t /\ klidx_inv t2 /\
+  (forall k seg v, In (k, seg, v) [(OAdd, [102;111;111], nine); (OAdd, [48;49], nine); (OReplace, [49;120], nine);
+                                   (OTest, [43;49], Some (ex_vnode (JI64 2))); (ORemove, [45], None)] ->
+     rfc_op strict Z.eqb (doc_val t) (sop_of (op k seg v)) = None /\ fst (apply_op ex_fo t (op k seg v)) = RcOk) /\
+  doc_val (snd (apply_op ex_fo t (op OAdd [102;111;111] nine))) = arr [JI64 9; JI64 1; JI64 2; JI64 3] /\
+  doc_val (snd (apply_op ex_fo t (op OAdd [48;49] nine))) = arr [JI64 1; JI64 9; JI64 2; JI64 3] /\
+  doc_val (snd (apply_op ex_fo t (op OReplace [49;120] nine))) = arr [JI64 1; JI64 9; JI64 3] /\
+  doc_val (snd (apply_op ex_fo t (op ORemove [45] None))) = arr [JI64 1; JI64 2] /\
+  rfc_op strict Z.eqb (doc_val t2) (sop_of {| p_op := OAdd; p_path := [[52;50;57;52;57;54;55;50;57;54]]; p_from := None; p_val := nine |}) = None /\
+  doc_val (snd (apply_op ex_fo t2 {| p_op := OAdd; p_path := [[52;50;57;52;57;54;55;50;57;54]]; p_from := None; p_val := nine |}))
+  = Some (JArr [JI64 9; JI64 1; JI64 2]).
+Proof.
+  cbv zeta. split; [apply of_val_inv1|]. split; [apply of_val_inv1|]. split.
+  - intros k seg v I. cbn [In] in I.
+    repeat (destruct I as [I|I]; [inversion I; subst; split; vm_compute; reflexivity|]). contradiction.
+  - repeat split; vm_compute; reflexivity.
+Qed.
+Print Assumptions C15_array_index_leniency_refuted.
